@@ -1,7 +1,7 @@
 SPECIFICATION Spec
 CONSTANTS
   Cls = {"P", "C", "T"}
-  MsgKinds = {"explicit", "kwtemplate", "class"}
+  MsgKinds = {"explicit", "kwtemplate", "class", "kwnested"}
   Outs = {"T", "F", "CR", "MR"}
   DelayCls = {"P"}
   Vals = {"o1"}
